@@ -74,12 +74,13 @@ def run_F_direct(scn: Dict[str, Any], on) -> Dict[str, Any]:
         order = list(ids)
         for i in order:
             m = params[i]
-            f.add_market(market_id=i, initial=float(m["initial"]), drift=float(m["drift"]), volatility=float(m["vol"]))
+            # drifts are handed over as written (a literal 0 is a Python int)
+            f.add_market(market_id=i, initial=float(m["initial"]), drift=m["drift"], volatility=float(m["vol"]))
         for i in F.get("readd", []):  # removed and added again: ends up last in registration order
             i = ids[int(i) % len(ids)]
             m = params[i]
             f.remove_market(market_id=i)
-            f.add_market(market_id=i, initial=float(m["initial"]), drift=float(m["drift"]), volatility=float(m["vol"]))
+            f.add_market(market_id=i, initial=float(m["initial"]), drift=m["drift"], volatility=float(m["vol"]))
             mon.probe("market_removed_and_added_again")
         corr = {}
         for a, b, c in F.get("corr") or []:
@@ -253,7 +254,7 @@ def run_F(scn: Dict[str, Any], on, plugins=()) -> Dict[str, Any]:
                     f.change_volatility(market_id=mid, volatility=float(op["v"]), time=now)
                     O.vol[mid] = float(op["v"])
                 elif k == "drift":
-                    f.change_drift(market_id=mid, drift=float(op["v"]), time=now)
+                    f.change_drift(market_id=mid, drift=op["v"], time=now)  # as written: 0 stays a Python int
                     O.drift[mid] = float(op["v"])
                 elif k == "corr":
                     b = op["m2"] % n
